@@ -271,6 +271,9 @@ def r19_text_layouts(ctx):
         'unit-and-record-separators': ('F0\x1f05\x1eF7\x1cF0\x1dF7', [(5,), ()]),
         'next-line-characters': ('F0 06 F7\x85F0 07 F7\x85', [(6,), (7,)]),
         'vertical-tab-and-form-feed': ('F0\x0b01\x0cF7', [(1,)]),
+        # a dump longer than any block or buffer size a reader might work in (4 KiB, 8 KiB), without a single blank: one byte
+        # per line, or tab separated - "any whitespace" holds at every offset of the file, not only in its first block
+        'nine-thousand-characters-one-byte-per-line': ('F0\n' + '01\n' * 2998 + 'F7\n', [(1,) * 2998]),
     }
     for name, (text, want) in good.items():
         ai = make_interp(ctx)
